@@ -325,5 +325,18 @@ def _git_head(repo):
         return "?"
 
 
+def _guarded():
+    try:
+        return main()
+    except SystemExit:
+        raise
+    except BaseException:  # an internal error must never look like a violation (exit 1)
+        import traceback
+
+        traceback.print_exc()
+        print("HARNESS-ERROR: internal error of the checking machinery (see traceback above)")
+        return 3
+
+
 if __name__ == "__main__":
-    sys.exit(main())
+    sys.exit(_guarded())
